@@ -99,6 +99,8 @@ def units(tier):
     from props import c11_mix as MX
     from props.common import wrap as _wrap
     _wrap(us, "C11.init_mix.partition_of_unity_and_stability_bookkeeping", MX.unit_init_mix)
+    from props import c11_mcd as MC
+    _wrap(us, "C11.multi_D.moles_move_under_the_same_element", MC.unit_mcd_bookkeeping)
     return us
 
 
